@@ -10,6 +10,7 @@ import Ctrmml.Spec.Timeline
 import Ctrmml.Proofs.CodecBreak
 import Ctrmml.Proofs.CodecTrack
 import Ctrmml.Proofs.CodecCall
+import Ctrmml.Proofs.SongFragment
 namespace Ctrmml.C02
 open Ctrmml Ctrmml.Mds Ctrmml.Seq Tables
 
@@ -41,7 +42,7 @@ theorem C02_stream_ends_with_finish_partial (nS nM : Nat) (es : List MEv) (e : E
     have a : ¬ (mds_FINISH = mds_SEGNO) := by decide
     simp [a]
   rw [h3] at h
-  have h4 : mds_FINISH < mds_REST ∨ mds_FINISH ≥ mds_SLR ∨ (⟨mds_FINISH, 0⟩ : MEv).arg ≠ 0 := by decide
+  have h4 : (mds_FINISH < mds_REST ∧ mds_FINISH ≠ mds_CARRY) ∨ mds_FINISH ≥ mds_SLR ∨ (⟨mds_FINISH, 0⟩ : MEv).arg ≠ 0 := by decide
   simp only [h4, if_true, Except.ok.injEq] at h
   subst h
   rfl
@@ -67,13 +68,14 @@ open Ctrmml Ctrmml.Mds Ctrmml.Seq Ctrmml.Codec Tables
 /-- **Linear fragment, all durations 1..65535, all adjacencies.**  The converter accepts, and the
 interpreter plays exactly the tick string of the events and stops with `finished` (for every tick
 limit that is not smaller than the string and every sufficiently large fuel). -/
-theorem C02_codec_roundtrip_linear (nS nM : Nat) (es : List MEv) (hv : ∀ ev ∈ es, linEv ev = true) (farg : Nat) :
+theorem C02_codec_roundtrip_linear (nS nM : Nat) (es : List MEv) (hv : ∀ ev ∈ es, linEv ev = true)
+    (hm : ∀ ev ∈ es, Mode.plain.evOk ev = true) (farg : Nat) :
     ∃ bytes, convertTrack nS nM (es ++ [⟨mds_FINISH, farg⟩]) = .ok bytes ∧
-      ∀ (base mj maxTicks : Nat) (ln lr : Option Nat), (ticks nS nM es).length ≤ maxTicks →
+      ∀ (base mj maxTicks : Nat) (ln lr : Option Nat), (ticks Mode.plain nS nM es).length ≤ maxTicks →
         ∃ n, ∀ fuel, fuel > n →
           run bytes base mj maxTicks fuel { pc := 0, lastNote := ln, lastRest := lr } =
-            (ticks nS nM es, .finished) := by
-  obtain ⟨bytes, h1, h2⟩ := codec_roundtrip_linear nS nM es hv farg
+            (ticks Mode.plain nS nM es, .finished) := by
+  obtain ⟨bytes, h1, h2⟩ := codec_roundtrip_linear nS nM es hv hm farg
   exact ⟨bytes, h1, fun base mj maxTicks ln lr hlen => (h2 base mj ln lr).run_eq maxTicks hlen⟩
 
 /-- **Loop point and loop-back jump** (`a ++ [SEGNO] ++ b ++ [JUMP]`, `a`, `b` linear; the shape of
@@ -81,26 +83,31 @@ defect D4).  With the jump followed `mj` times the interpreter plays `a`, then `
 with a loop mark after each of the first `mj`.  Hypothesis: the stream is shorter than 64 KiB
 (the jump offset is 16 bit). -/
 theorem C02_codec_roundtrip_segno (nS nM : Nat) (a b : List MEv) (ha : ∀ ev ∈ a, linEv ev = true)
-    (hb : ∀ ev ∈ b, linEv ev = true) (jarg : Nat) :
+    (hb : ∀ ev ∈ b, linEv ev = true) (ma : ∀ ev ∈ a, Mode.plain.evOk ev = true)
+    (mb : ∀ ev ∈ b, Mode.plain.evOk ev = true) (jarg : Nat) :
     ∃ bytes, convertTrack nS nM (a ++ [⟨mds_SEGNO, 0⟩] ++ b ++ [⟨mds_JUMP, jarg⟩]) = .ok bytes ∧
       (bytes.length < 65536 → ∀ (base mj maxTicks : Nat) (ln lr : Option Nat),
-        (ticks nS nM a ++ repeatL mj (ticks nS nM b ++ [Tk.loopMark]) ++ ticks nS nM b).length ≤ maxTicks →
+        (ticks Mode.plain nS nM a ++ repeatL mj (ticks Mode.plain nS nM b ++ [Tk.loopMark]) ++
+          ticks Mode.plain nS nM b).length ≤ maxTicks →
         ∃ n, ∀ fuel, fuel > n →
           run bytes base mj maxTicks fuel { pc := 0, lastNote := ln, lastRest := lr } =
-            (ticks nS nM a ++ repeatL mj (ticks nS nM b ++ [Tk.loopMark]) ++ ticks nS nM b, .finished)) := by
-  obtain ⟨bytes, h1, h2⟩ := codec_roundtrip_segno nS nM a b ha hb jarg
+            (ticks Mode.plain nS nM a ++ repeatL mj (ticks Mode.plain nS nM b ++ [Tk.loopMark]) ++
+              ticks Mode.plain nS nM b, .finished)) := by
+  obtain ⟨bytes, h1, h2⟩ := codec_roundtrip_segno nS nM a b ha hb ma mb jarg
   exact ⟨bytes, h1, fun hl base mj maxTicks ln lr hlen => (h2 hl base mj ln lr).run_eq maxTicks hlen⟩
 
 /-- the statement of the task for `maxJumps = 1`: ticks(a) ++ ticks(b) ++ [loopMark] ++ ticks(b) -/
 theorem C02_codec_roundtrip_segno_once (nS nM : Nat) (a b : List MEv) (ha : ∀ ev ∈ a, linEv ev = true)
-    (hb : ∀ ev ∈ b, linEv ev = true) (jarg : Nat) :
+    (hb : ∀ ev ∈ b, linEv ev = true) (ma : ∀ ev ∈ a, Mode.plain.evOk ev = true)
+    (mb : ∀ ev ∈ b, Mode.plain.evOk ev = true) (jarg : Nat) :
     ∃ bytes, convertTrack nS nM (a ++ [⟨mds_SEGNO, 0⟩] ++ b ++ [⟨mds_JUMP, jarg⟩]) = .ok bytes ∧
       (bytes.length < 65536 → ∀ (base maxTicks : Nat) (ln lr : Option Nat),
-        (ticks nS nM a ++ ticks nS nM b ++ [Tk.loopMark] ++ ticks nS nM b).length ≤ maxTicks →
+        (ticks Mode.plain nS nM a ++ ticks Mode.plain nS nM b ++ [Tk.loopMark] ++ ticks Mode.plain nS nM b).length ≤ maxTicks →
         ∃ n, ∀ fuel, fuel > n →
           run bytes base 1 maxTicks fuel { pc := 0, lastNote := ln, lastRest := lr } =
-            (ticks nS nM a ++ ticks nS nM b ++ [Tk.loopMark] ++ ticks nS nM b, .finished)) := by
-  obtain ⟨bytes, h1, h2⟩ := C02_codec_roundtrip_segno nS nM a b ha hb jarg
+            (ticks Mode.plain nS nM a ++ ticks Mode.plain nS nM b ++ [Tk.loopMark] ++ ticks Mode.plain nS nM b,
+              .finished)) := by
+  obtain ⟨bytes, h1, h2⟩ := C02_codec_roundtrip_segno nS nM a b ha hb ma mb jarg
   refine ⟨bytes, h1, fun hl base maxTicks ln lr hlen => ?_⟩
   have := h2 hl base 1 maxTicks ln lr (by simpa [repeatL, List.append_assoc] using hlen)
   simpa [repeatL, List.append_assoc] using this
@@ -109,13 +116,13 @@ theorem C02_codec_roundtrip_segno_once (nS nM : Nat) (a b : List MEv) (ha : ∀ 
 leaves in the linear fragment; terminated by `FINISH`).  The interpreter plays the loop expansion:
 each body `passes n` times (`n mod 256` times, once if that is `≤ 1`). -/
 theorem C02_codec_roundtrip_loops_nobreak_partial (nS nM : Nat) (ts : List Node) (hl : linL ts = true)
-    (hn : noBreakL ts = true) (farg : Nat) :
+    (hn : noBreakL ts = true) (hm : mokL Mode.plain false ts = true) (farg : Nat) :
     ∃ bytes, convertTrack nS nM (flatL ts ++ [⟨mds_FINISH, farg⟩]) = .ok bytes ∧
-      ∀ (base mj maxTicks : Nat) (ln lr : Option Nat), (expL nS nM ts).length ≤ maxTicks →
+      ∀ (base mj maxTicks : Nat) (ln lr : Option Nat), (expL Mode.plain nS nM ts).length ≤ maxTicks →
         ∃ n, ∀ fuel, fuel > n →
           run bytes base mj maxTicks fuel { pc := 0, lastNote := ln, lastRest := lr } =
-            (expL nS nM ts, .finished) := by
-  obtain ⟨bytes, h1, h2⟩ := codec_roundtrip_loops_nobreak nS nM ts hl hn farg
+            (expL Mode.plain nS nM ts, .finished) := by
+  obtain ⟨bytes, h1, h2⟩ := codec_roundtrip_loops_nobreak nS nM ts hl hn hm farg
   exact ⟨bytes, h1, fun base mj maxTicks ln lr hlen => (h2 base mj ln lr).run_eq maxTicks hlen⟩
 
 /-- **convert_structured_eq.**  `convert_track` back-patches the loop-break instruction into the
@@ -123,59 +130,77 @@ middle of the stream when it reaches the loop end.  On every bracket structure o
 fragment it computes exactly what the structured two-pass encoder `Codec.encL` computes, which only
 ever appends (for a loop with a break: encode the part after the break once to measure it, emit
 `LPB o` / `LPBL oo`, encode it again) — provided the result is shorter than 64 KiB. -/
-theorem C02_convert_structured_eq (nS nM : Nat) (ts : List Node) (hl : linL ts = true) (e' : Enc)
-    (h : encL nS nM ts {} = .ok e') (hb : e'.out.length < 65536) :
+theorem C02_convert_structured_eq (nS nM : Nat) (ts : List Node) (hl : linL ts = true) (hk : brkOkL false ts = true)
+    (e' : Enc) (h : encL nS nM ts {} = .ok e') (hb : e'.out.length < 65536) :
     convertTrack nS nM (flatL ts) = .ok e'.out :=
-  convert_structured_eq nS nM ts hl e' h hb
+  convert_structured_eq nS nM ts hl hk e' h hb
 
-/-- **Counted loops with and without break, nested to any depth** (leaves in the linear fragment,
+/-- **Counted loops with any number of breaks, nested to any depth** (leaves in the linear fragment,
+further break markers only behind a first break of the same loop — `brkOkL` —, no calls,
 terminated by `FINISH`, stream shorter than 64 KiB).  The interpreter plays exactly the loop
 expansion `expL`: each body `passes n` times (`n mod 256`, once if that is `≤ 1`), the part after
-the break dropped on the last pass. -/
-theorem C02_codec_roundtrip_loops (nS nM : Nat) (ts : List Node) (hl : linL ts = true) (farg : Nat) :
+the FIRST break dropped on the last pass. -/
+theorem C02_codec_roundtrip_loops (nS nM : Nat) (ts : List Node) (hl : linL ts = true) (hk : brkOkL false ts = true)
+    (hnc : noCallL ts = true) (hm : mokL Mode.plain false ts = true) (farg : Nat) :
     ∃ e', encL nS nM ts {} = .ok e' ∧
       (e'.out.length + 1 < 65536 →
         convertTrack nS nM (flatL ts ++ [⟨mds_FINISH, farg⟩]) = .ok (e'.out ++ [mds_FINISH]) ∧
-        ∀ (base mj maxTicks : Nat) (ln lr : Option Nat), (expL nS nM ts).length ≤ maxTicks →
+        ∀ (base mj maxTicks : Nat) (ln lr : Option Nat), (expL Mode.plain nS nM ts).length ≤ maxTicks →
           ∃ n, ∀ fuel, fuel > n →
             run (e'.out ++ [mds_FINISH]) base mj maxTicks fuel { pc := 0, lastNote := ln, lastRest := lr } =
-              (expL nS nM ts, .finished)) := by
-  obtain ⟨e', h1, h2⟩ := codec_roundtrip_loops nS nM ts hl farg
+              (expL Mode.plain nS nM ts, .finished)) := by
+  obtain ⟨e', h1, h2⟩ := codec_roundtrip_loops nS nM ts hl hk hnc hm farg
   refine ⟨e', h1, fun hb => ⟨(h2 hb).1, fun base mj maxTicks ln lr hlen => ?_⟩⟩
   exact ((h2 hb).2 base mj ln lr).run_eq maxTicks hlen
 
-/-- **The general single track**: a bracket structure `ta` (nested counted loops with and without
-break over the linear fragment), the loop point at loop depth 0, a bracket structure `tb`, the
+/-- **The general single track**: a bracket structure `ta` (nested counted loops with ANY NUMBER
+of breaks per loop over the linear fragment: `Node.loopB body tail n` with further break markers
+`Node.xbrk` in `tail`; `brkOkL false` = such markers stand only behind a first break of their own
+loop; `noCallL` = no subroutine calls, they need a chunk around the stream: see
+`C02_track_at_offset_partial`), the loop point at loop depth 0, a bracket structure `tb`, the
 loop-back jump.  `trackBytes eB` = the structured encoding of the two parts followed by the jump
 instruction; if it is shorter than 64 KiB it is what `convert_track` produces, and with the jump
 followed `mj` times the interpreter plays the expansion of `ta`, then the expansion of `tb`
 `mj + 1` times with a loop mark after each of the first `mj`. -/
 theorem C02_codec_roundtrip_track (nS nM : Nat) (ta tb : List Node) (ha : linL ta = true) (hb : linL tb = true)
+    (ka : brkOkL false ta = true) (kb : brkOkL false tb = true) (na : noCallL ta = true) (nb : noCallL tb = true)
+    (ma : mokL Mode.plain false ta = true) (mb : mokL Mode.plain false tb = true)
     (jarg : Nat) :
     ∃ eA eB, encL nS nM ta {} = .ok eA ∧ encL nS nM tb (afterSegno eA) = .ok eB ∧
       ((trackBytes eB).length < 65536 →
         convertTrack nS nM (flatL ta ++ [⟨mds_SEGNO, 0⟩] ++ flatL tb ++ [⟨mds_JUMP, jarg⟩]) = .ok (trackBytes eB) ∧
         ∀ (base mj maxTicks : Nat) (ln lr : Option Nat),
-          (expL nS nM ta ++ repeatL mj (expL nS nM tb ++ [Tk.loopMark]) ++ expL nS nM tb).length ≤ maxTicks →
+          (expL Mode.plain nS nM ta ++ repeatL mj (expL Mode.plain nS nM tb ++ [Tk.loopMark]) ++
+            expL Mode.plain nS nM tb).length ≤ maxTicks →
           ∃ n, ∀ fuel, fuel > n →
             run (trackBytes eB) base mj maxTicks fuel { pc := 0, lastNote := ln, lastRest := lr } =
-              (expL nS nM ta ++ repeatL mj (expL nS nM tb ++ [Tk.loopMark]) ++ expL nS nM tb, .finished)) := by
-  obtain ⟨eA, eB, hA, hB, h⟩ := codec_roundtrip_track nS nM ta tb ha hb jarg
+              (expL Mode.plain nS nM ta ++ repeatL mj (expL Mode.plain nS nM tb ++ [Tk.loopMark]) ++
+                expL Mode.plain nS nM tb, .finished)) := by
+  obtain ⟨eA, eB, hA, hB, h⟩ := codec_roundtrip_track nS nM ta tb ha hb ka kb na nb ma mb jarg
   refine ⟨eA, eB, hA, hB, fun hlen => ⟨(h hlen).1, fun base mj maxTicks ln lr hmax => ?_⟩⟩
   exact ((h hlen).2 base mj ln lr).run_eq maxTicks hmax
 
 /-- **A compiled stream at any offset of a chunk** (building block for whole chunks; `Codec.Reach`
 = zero or more `Seq.step`s, `Codec.Frame` = loop stack, call stack, drum flag and jump count
-unchanged): entered at its first byte with ANY call stack, loop stack and register contents, the
-stream of a bracket structure plays its expansion and arrives at its `FINISH` with the stacks as
-on entry.  (The bytes do not depend on the offset: prefix independence of the encoder.) -/
-theorem C02_stream_at_offset_partial (nS nM : Nat) (ts : List Node) (hl : linL ts = true) :
+unchanged; `Codec.Mode` = the drum flag and the drum routines known to be sound, `mokL M false` = every
+note byte can be played in mode `M` and no `FLG` command changes the drum flag): entered at its
+first byte in mode `M` with ANY call stack, loop stack and register contents, the stream of a bracket
+structure plays its expansion and arrives at its `FINISH` with the stacks as on entry.  (The bytes
+do not depend on the offset: prefix independence of the encoder.) -/
+theorem C02_stream_at_offset_partial (M : Mode) (nS nM : Nat) (ts : List Node) (hl : linL ts = true)
+    (hm : mokL M false ts = true) :
     ∃ e', encL nS nM ts {} = .ok e' ∧
-      ∀ (pre : List Nat) (seq : List Nat) (base mj : Nat) (s : St),
-        pre ++ e'.out ++ [mds_FINISH] <+: seq → s.pc = pre.length → s.drum = false →
+      ∀ (pre : List Nat) (seq : List Nat) (base mj : Nat) (s : St), M.Sound seq base mj → callsOkL M seq base mj ts →
+        pre ++ e'.out ++ [mds_FINISH] <+: seq → s.pc = pre.length → s.drum = M.dm →
         ∃ s1, Reach seq base mj s s1 ∧ Frame s s1 ∧ s1.pc = pre.length + e'.out.length ∧
-          seq[s1.pc]? = some mds_FINISH ∧ s1.out = (expL nS nM ts).reverse ++ s.out :=
-  stream_at nS nM ts hl
+          seq[s1.pc]? = some mds_FINISH ∧ s1.out = (expL M nS nM ts).reverse ++ s.out := by
+  obtain ⟨e', he', h⟩ := stream_at M nS nM ts hl hm
+  refine ⟨e', he', fun pre seq base mj s hS hc hp hpc hd => ?_⟩
+  obtain ⟨s1, r1, f1, hpc1, ho⟩ := h pre seq base mj s hS hc (b := mds_FINISH) (by decide) hp hpc hd
+  refine ⟨s1, r1, f1, hpc1, ?_, ho⟩
+  rw [hpc1]
+  have : (pre ++ e'.out) ++ mds_FINISH :: [] <+: seq := hp
+  simpa using rd_at this
 
 /-- **The call / return join point.**  From related encoder / interpreter states (`Codec.Good`: the
 encoder's remembered lengths, where it relies on them, equal the interpreter's registers), a
@@ -183,23 +208,123 @@ encoder's remembered lengths, where it relies on them, equal the interpreter's r
 (`Codec.SubPlays`, e.g. by `C02_stream_at_offset_partial`) makes the interpreter play `T` and
 return behind the call in a state related to the encoder state after `PAT` — the interpreter's
 registers are unknown there, and the encoder has forgotten both. -/
-theorem C02_call_return_partial {seq : List Nat} {base mj : Nat} {e : Enc} {s : St} {O : List Tk}
-    (g : Good e s O) (arg : Nat) (hp : (afterPAT e arg).out <+: seq) {t : Nat}
-    (ht : slotTarget seq base (arg % 256) = some t) {T : List Tk} (hsub : SubPlays seq base mj t T) :
+theorem C02_call_return_partial {M : Mode} {seq : List Nat} {base mj : Nat} (hS : M.Sound seq base mj) {e : Enc} {s : St}
+    {O : List Tk}
+    (g : Good M e s O) (arg : Nat) (hp : (afterPAT e arg).out <+: seq) {t : Nat}
+    (ht : slotTarget seq base (arg % 256) = some t) {T : List Tk} (hsub : SubPlays seq base mj M.dm t T) :
     encEv 0 0 e ⟨mds_PAT, arg⟩ = .ok (afterPAT e arg) ∧
-    ∃ s', Reach seq base mj s s' ∧ Frame s s' ∧ Good (afterPAT e arg) s' (T.reverse ++ O) :=
-  ⟨encEv_pat 0 0 e arg, pat_good g arg hp ht hsub⟩
+    ∃ s', Reach seq base mj s s' ∧ Frame s s' ∧ Good M (afterPAT e arg) s' (T.reverse ++ O) :=
+  ⟨encEv_pat 0 0 e arg, pat_good hS g arg hp ht hsub⟩
 
-/-! ### Outside the domain: two break markers in one loop (defect D23 found while proving; fixed)
+/-- **The drum-routine join point.**  With the drum flag set a note byte `82+j` (with or without a
+length byte, `l` = the explicit length) calls the routine in pointer slot `j`; if that routine, entered
+with the drum flag on, plays the commands `C` and arrives at `DMFINISH k` with its stacks as on entry
+(`Codec.DrumPlays`, e.g. by `C02_drum_routine_at_offset_partial`), the interpreter plays `C`, then note
+`k` with the length of the calling note byte, and stands behind the note byte with the caller's two
+remembered lengths restored (the note length updated as for a sounding note) and all stacks as before. -/
+theorem C02_drum_call_return_partial {seq : List Nat} {base mj : Nat} {s : St} {ty l t k : Nat} {C : List Tk}
+    (h : seq[s.pc]? = some ty) (h1 : mds_NOTE ≤ ty) (h2 : ty < 0xe0) (hl : seq[s.pc + 1]? = some l) (hl' : l < 0x80)
+    (hd : s.drum = true) (ht : slotTarget seq base (ty - mds_NOTE) = some t) (hr : DrumPlays seq base mj t C k) :
+    ∃ s', Reach seq base mj s s' ∧ Frame s s' ∧ s'.pc = s.pc + 2 ∧ s'.lastNote = some l ∧ s'.lastRest = s.lastRest ∧
+      s'.out = (C ++ Tk.on k :: List.replicate l Tk.hold).reverse ++ s.out := by
+  obtain ⟨M, hM⟩ : ∃ M : Mode, M = ⟨true, fun j => if j = ty - mds_NOTE then some (C, k) else none⟩ := ⟨_, rfl⟩
+  have hS : M.Sound seq base mj := by
+    intro j C' k' hj
+    rw [hM] at hj
+    simp only at hj
+    split at hj
+    · rename_i hjj
+      simp only [Option.some.injEq, Prod.mk.injEq] at hj
+      obtain ⟨rfl, rfl⟩ := hj
+      exact ⟨t, by rw [hjj]; exact ht, hr⟩
+    · cases hj
+  have hok : M.okTy ty = true := by rw [hM]; simp [Mode.okTy]
+  have hge : (129 : Nat) ≤ ty := by have : mds_NOTE = 130 := rfl; omega
+  obtain ⟨s', r, f, a, b, c, d⟩ := note_len hS h hge h2 hl hl' (by rw [hM]; exact hd) hok
+  refine ⟨s', r, f, a, b, c, ?_⟩
+  rw [d, hM]
+  have hk : ¬ mds_NOTE + k = mds_TIE := by show ¬ 130 + k = 129; omega
+  have hk2 : mds_NOTE + k - mds_NOTE = k := by show 130 + k - 130 = k; omega
+  simp [Mode.nt, h1, Codec.noteTicks, hk, hk2]
 
-`Codec.Node` allows at most one break per loop.  Before repository fix 6595106 that restriction was
-necessary: `convert_track` kept ONE break address per open loop and overwrote it at every `LPB`
+/-- **A drum routine at any offset of a chunk**: the stream `convert_track` makes of the commands
+before a routine's first note (a bracket structure `ts` without notes — `mokL Mode.drum0`: drum flag
+on, no routine known) followed by `DMFINISH k` plays, entered with the drum flag on and any stacks,
+the expansion of `ts` and arrives at `DMFINISH k` with the stacks as on entry (`Codec.DrumPlays`). -/
+theorem C02_drum_routine_at_offset_partial (nS nM : Nat) (ts : List Node) (hl : linL ts = true)
+    (hm : mokL Mode.drum0 false ts = true) (k : Nat) :
+    ∃ e', encL nS nM ts {} = .ok e' ∧
+      ∀ (pre seq : List Nat) (base mj : Nat), callsOkL Mode.drum0 seq base mj ts →
+        pre ++ e'.out ++ [mds_DMFINISH, k] <+: seq →
+        DrumPlays seq base mj pre.length (expL Mode.drum0 nS nM ts) k :=
+  routine_at nS nM ts hl hm k
+
+/-- **A channel track inside a chunk, with subroutine calls, drum routines and drum-mode switches**
+(the three shapes `MDSDRV_Track_Writer::end_hook` produces; `Codec.Node.call arg T` = `PAT arg`
+annotated with the tick string of its callee, `callsOkL M seq base mj` = every such call finds,
+through the pointer table of `seq` at `base`, a stream that — entered in the drum-flag state the call
+is reached in — plays `T` and returns; `mokL M true` = every note byte can be played in the mode it
+is reached in, `FLG` commands that switch the drum flag stand outside counted loops; `afterL M ta` =
+the mode after `ta`).  The stream stands at offset `pre.length` of `seq`; extra hypotheses for shape
+(J): the chunk up to the end of the stream is shorter than 64 KiB (the interpreter computes the
+loop-back target modulo 2^16), and the loop section ends in the drum-flag state it starts in.
+ (J) `ta, SEGNO, tb, JUMP`: entered with the loop-back not yet followed, plays `ta`, then `tb`
+     `mj + 1` times with a loop mark after each of the first `mj`, stops at the jump;
+ (Z) `ta, SEGNO, tb, FINISH` and (F) `ta, FINISH`: entered with an empty call stack, play the
+     expansion and stop at the terminator. -/
+theorem C02_track_at_offset_partial (M : Mode) (nS nM : Nat) (ta tb : List Node) (ha : linL ta = true) (hb : linL tb = true)
+    (ma : mokL M true ta = true) (mb : mokL (afterL M ta) true tb = true) :
+    ∃ eA eB, encL nS nM ta {} = .ok eA ∧ encL nS nM tb (afterSegno eA) = .ok eB ∧
+      ((afterL (afterL M ta) tb).dm = (afterL M ta).dm →
+        ∀ (pre seq : List Nat) (base mj : Nat) (s : St), M.Sound seq base mj → callsOkL M seq base mj ta →
+        callsOkL (afterL M ta) seq base mj tb →
+        pre ++ trackBytes eB <+: seq → (pre ++ trackBytes eB).length < 65536 →
+        s.pc = pre.length → s.drum = M.dm → s.jumps = 0 →
+        ∃ s', Reach seq base mj s s' ∧ step seq base mj s' = .error .finished ∧
+          s'.out = (expL M nS nM ta ++ repeatL mj (expL (afterL M ta) nS nM tb ++ [Tk.loopMark]) ++
+            expL (afterL M ta) nS nM tb).reverse ++ s.out) ∧
+      (∀ (pre seq : List Nat) (base mj : Nat) (s : St), M.Sound seq base mj → callsOkL M seq base mj ta →
+        callsOkL (afterL M ta) seq base mj tb →
+        pre ++ (eB.out ++ [mds_FINISH]) <+: seq → s.pc = pre.length → s.drum = M.dm → s.calls = [] →
+        ∃ s', Reach seq base mj s s' ∧ step seq base mj s' = .error .finished ∧
+          s'.out = (expL M nS nM ta ++ expL (afterL M ta) nS nM tb).reverse ++ s.out) ∧
+      (∀ (pre seq : List Nat) (base mj : Nat) (s : St), M.Sound seq base mj → callsOkL M seq base mj ta →
+        pre ++ (eA.out ++ [mds_FINISH]) <+: seq → s.pc = pre.length → s.drum = M.dm → s.calls = [] →
+        ∃ s', Reach seq base mj s s' ∧ step seq base mj s' = .error .finished ∧
+          s'.out = (expL M nS nM ta).reverse ++ s.out) := by
+  obtain ⟨eA', eB', hA', hB', hZ⟩ := track_z_at M nS nM ta tb ha hb ma mb
+  obtain ⟨eA'', hA'', hF⟩ := track_f_at M nS nM ta ha ma
+  rw [hA'] at hA''; injection hA'' with hA''; subst hA''
+  refine ⟨eA', eB', hA', hB', ?_, hZ, hF⟩
+  intro hloop
+  obtain ⟨eA, eB, hA, hB, hJ⟩ := track_j_at M nS nM ta tb ha hb ma mb hloop
+  rw [hA'] at hA; injection hA with hA; subst hA
+  rw [hB'] at hB; injection hB with hB; subst hB
+  exact hJ
+
+/-- the bytes of the three shapes are what `convert_track` emits (streams shorter than 64 KiB) -/
+theorem C02_track_shapes_convert (nS nM : Nat) (ta tb : List Node) (ha : linL ta = true) (hb : linL tb = true)
+    (ka : brkOkL false ta = true) (kb : brkOkL false tb = true) (arg : Nat)
+    (eA eB : Enc) (hA : encL nS nM ta {} = .ok eA) (hB : encL nS nM tb (afterSegno eA) = .ok eB) :
+    ((trackBytes eB).length < 65536 →
+      convertTrack nS nM (flatL ta ++ [⟨mds_SEGNO, 0⟩] ++ flatL tb ++ [⟨mds_JUMP, arg⟩]) = .ok (trackBytes eB)) ∧
+    (eB.out.length + 1 < 65536 →
+      convertTrack nS nM (flatL ta ++ [⟨mds_SEGNO, 0⟩] ++ flatL tb ++ [⟨mds_FINISH, arg⟩]) = .ok (eB.out ++ [mds_FINISH])) ∧
+    (eA.out.length + 1 < 65536 →
+      convertTrack nS nM (flatL ta ++ [⟨mds_FINISH, arg⟩]) = .ok (eA.out ++ [mds_FINISH])) :=
+  ⟨track_convert nS nM ta tb ha hb ka kb arg eA eB hA hB, track_convert_z nS nM ta tb ha hb ka kb arg eA eB hA hB,
+    track_convert_f nS nM ta ha ka arg eA hA⟩
+
+/-! ### Several break markers in one loop (defect D23 found while proving; fixed)
+
+Before repository fix 6595106 a loop could meaningfully hold only one break: `convert_track` kept ONE break address per open loop and overwrote it at every `LPB`
 event, so of several breaks in the same loop only the LAST was back-patched, while the player
 (`Basic_Player::step_event`, Spec/Expand) leaves the loop at the FIRST break on the last pass;
 `[c / d / e]2` was emitted as `fa a6 01 a8 fc 03 aa fb 02 ff` (plays `c d e c d`).  Every dropped
 `LPB` also overwrote `last_type`, which switched the length disambiguation off exactly as in D4.
 With the fix (`encEv` skips a break when the open loop already has one) the first break is the one
-that is emitted and the dropped ones leave no trace: -/
+that is emitted and the dropped ones leave no trace — `Codec.Node.xbrk`, covered by the theorems
+above (`exDoubleN` below is `exDouble` as a bracket structure): -/
 
 /-- `[c / d / e]2` -/
 def exDouble : List MEv :=
@@ -222,38 +347,50 @@ theorem C02_double_break_fixed :
       ([.on 36, .hold, .on 36, .hold, .off, .off, .off, .off, .on 40, .hold, .on 36, .hold, .on 36, .hold], .finished) := by
   decide +kernel
 
+/-- `[c / d / e]2` as a bracket structure: the second break is an `xbrk` in the tail -/
+def exDoubleN : List Node := [.loopB [.ev ⟨0xa6, 2⟩] [.ev ⟨0xa8, 2⟩, .xbrk, .ev ⟨0xaa, 2⟩] 2]
+example : flatL exDoubleN ++ [⟨mds_FINISH, 0⟩] = exDouble := rfl
+example : linL exDoubleN = true ∧ brkOkL false exDoubleN = true ∧ noCallL exDoubleN = true ∧
+    mokL Mode.plain false exDoubleN = true := by decide
+example : expL Mode.plain 0 0 exDoubleN = [.on 36, .hold, .on 38, .hold, .on 40, .hold, .on 36, .hold] := by decide +kernel
+/-- a break marker outside the tail of a `loopB` is not in the domain (`[c]2 /`: the converter has no
+open loop there, `top()` of an empty stack) -/
+example : brkOkL false [.loop [.ev ⟨0xa6, 2⟩] 2, .xbrk] = false := by decide
+
 /-! ### non-vacuity -/
 
 /-- the D4 shape `note, note (same length), SEGNO, rest, note, JUMP` -/
 def exD4a : List MEv := [⟨0xa6, 24⟩, ⟨0xa6, 24⟩]
 def exD4b : List MEv := [⟨mds_REST, 48⟩, ⟨0xa8, 24⟩]
 
-example : (∀ ev ∈ exD4a, linEv ev = true) ∧ (∀ ev ∈ exD4b, linEv ev = true) := by decide
+example : (∀ ev ∈ exD4a, linEv ev = true) ∧ (∀ ev ∈ exD4b, linEv ev = true) ∧
+    (∀ ev ∈ exD4a, Mode.plain.evOk ev = true) ∧ (∀ ev ∈ exD4b, Mode.plain.evOk ev = true) := by decide
 /-- the length-less second note gets its length byte `17` at the loop point (D4 fixed) -/
 example : convertTrack 0 0 (exD4a ++ [⟨mds_SEGNO, 0⟩] ++ exD4b ++ [⟨mds_JUMP, 0⟩]) =
     .ok [0xa6, 0x17, 0xa6, 0x17, 0x2f, 0xa8, 0x17, 0xf5, 0xff, 0xfa] := rfl
-example : (ticks 0 0 exD4a ++ ticks 0 0 exD4b ++ [Tk.loopMark] ++ ticks 0 0 exD4b).length = 193 := by decide +kernel
+example : (ticks Mode.plain 0 0 exD4a ++ ticks Mode.plain 0 0 exD4b ++ [Tk.loopMark] ++ ticks Mode.plain 0 0 exD4b).length = 193 := by decide +kernel
 
 /-- a 300-tick note followed by a 130-tick rest: both are split at 128 ticks -/
 def exLong : List MEv := [⟨0xa6, 300⟩, ⟨mds_REST, 130⟩]
-example : ∀ ev ∈ exLong, linEv ev = true := by decide
+example : (∀ ev ∈ exLong, linEv ev = true) ∧ (∀ ev ∈ exLong, Mode.plain.evOk ev = true) := by decide
 example : convertTrack 0 0 (exLong ++ [⟨mds_FINISH, 0⟩]) = .ok [0xa6, 0x7f, 0x81, 0x81, 0x2b, 0x7f, 0x01, 0xff] := rfl
-example : (ticks 0 0 exLong).length = 430 := by decide +kernel
-example : (ticks 0 0 [⟨0xa6, 3⟩, ⟨mds_TIE, 2⟩, ⟨mds_REST, 2⟩, ⟨mds_VOL, 300⟩, ⟨mds_FMREG, 0x12345⟩, ⟨mds_INS, 3⟩]) =
+example : (ticks Mode.plain 0 0 exLong).length = 430 := by decide +kernel
+example : (ticks Mode.plain 0 0 [⟨0xa6, 3⟩, ⟨mds_TIE, 2⟩, ⟨mds_REST, 2⟩, ⟨mds_VOL, 300⟩, ⟨mds_FMREG, 0x12345⟩, ⟨mds_INS, 3⟩]) =
     [.on 36, .hold, .hold, .hold, .hold, .off, .off, .cmd mds_VOL 44, .cmd mds_FMREG 0x2345, .cmd mds_INS 3] := by
   decide
 
 /-- nested loops: `c [ c [ r ]2 ]3` -/
 def exLoops : List Node := [.ev ⟨0xa6, 24⟩, .loop [.ev ⟨0xa6, 24⟩, .loop [.ev ⟨mds_REST, 12⟩] 2] 3]
-example : linL exLoops = true ∧ noBreakL exLoops = true := by decide
+example : linL exLoops = true ∧ noBreakL exLoops = true ∧ mokL Mode.plain false exLoops = true := by decide
 example : convertTrack 0 0 (flatL exLoops ++ [⟨mds_FINISH, 0⟩]) =
     .ok [0xa6, 0x17, 0xfa, 0xa6, 0x17, 0xfa, 0x0b, 0xfb, 2, 0xfb, 3, 0xff] := rfl
-example : (expL 0 0 exLoops).length = 24 + 3 * (24 + 2 * 12) := by decide +kernel
+example : (expL Mode.plain 0 0 exLoops).length = 24 + 3 * (24 + 2 * 12) := by decide +kernel
 
 /-- loops with breaks, nested: `c [ c c / r [ d / r ]2 ]3` -/
 def exBreak : List Node :=
   [.ev ⟨0xa6, 24⟩, .loopB [.ev ⟨0xa6, 24⟩, .ev ⟨0xa6, 24⟩] [.ev ⟨mds_REST, 48⟩, .loopB [.ev ⟨0xa8, 12⟩] [.ev ⟨mds_REST, 12⟩] 2] 3]
-example : linL exBreak = true := by decide
+example : linL exBreak = true ∧ brkOkL false exBreak = true ∧ noCallL exBreak = true ∧
+    mokL Mode.plain false exBreak = true := by decide
 /-- the length-less third `c` is followed by the back-patched `fc 0b`, then the rest length `2f` -/
 example : (convertTrack 0 0 (flatL exBreak ++ [⟨mds_FINISH, 0⟩])).toOption =
     some [0xa6, 0x17, 0xfa, 0xa6, 0x17, 0xa6, 0xfc, 0x0b, 0x2f, 0xfa, 0xa8, 0x0b, 0xfc, 0x03, 0x0b, 0xfb, 2, 0xfb, 3, 0xff] := by
@@ -261,21 +398,21 @@ example : (convertTrack 0 0 (flatL exBreak ++ [⟨mds_FINISH, 0⟩])).toOption =
 example : ((encL 0 0 exBreak {}).map (·.out)).toOption =
     some [0xa6, 0x17, 0xfa, 0xa6, 0x17, 0xa6, 0xfc, 0x0b, 0x2f, 0xfa, 0xa8, 0x0b, 0xfc, 0x03, 0x0b, 0xfb, 2, 0xfb, 3] := by
   decide +kernel
-example : (expL 0 0 exBreak).length = 24 + 2 * (48 + 48 + (12 + 12 + 12)) + 48 := by decide +kernel
+example : (expL Mode.plain 0 0 exBreak).length = 24 + 2 * (48 + 48 + (12 + 12 + 12)) + 48 := by decide +kernel
 
 /-- the hypotheses of `C02_call_return_partial` are satisfiable: a chunk fragment with the caller
 `fe 00 ff` at 0, the pointer table at 3 (slot 0 → offset 2 from the table) and the callee `a6 17 ff` at 5 -/
 example : ∃ (seq : List Nat) (t : Nat) (T : List Tk) (s' : St),
-    slotTarget seq 3 (0 % 256) = some t ∧ SubPlays seq 3 0 t T ∧ T = ticks 0 0 [⟨0xa6, 24⟩] ∧
+    slotTarget seq 3 (0 % 256) = some t ∧ SubPlays seq 3 0 false t T ∧ T = ticks Mode.plain 0 0 [⟨0xa6, 24⟩] ∧
     Reach seq 3 0 { pc := 0 } s' ∧ s'.pc = 2 ∧ s'.out = T.reverse := by
-  obtain ⟨e', he', h⟩ := stream_at_subPlays 0 0 [.ev ⟨0xa6, 24⟩] (by decide)
+  obtain ⟨e', he', h⟩ := stream_at_subPlays Mode.plain 0 0 [.ev ⟨0xa6, 24⟩] (by decide) (by decide)
   have hc : encL 0 0 [.ev ⟨0xa6, 24⟩] {} = .ok { out := [0xa6, 0x17], lastNote := 0x17, lastType := 0xa6 } := rfl
   rw [hc] at he'; injection he' with he'; subst he'
   have hsub := h [0xfe, 0x00, 0xff, 0x00, 0x02] [0xfe, 0x00, 0xff, 0x00, 0x02, 0xa6, 0x17, 0xff] 3 0
-    (List.prefix_refl _)
+    (Mode.plain_sound _ _ _) (by simp [callsOkL, Node.callsOk]) (List.prefix_refl _)
   obtain ⟨_, s', r, _, g⟩ := C02_call_return_partial (seq := [0xfe, 0x00, 0xff, 0x00, 0x02, 0xa6, 0x17, 0xff])
-    (base := 3) (mj := 0) (good_init none none) 0 (by decide) (t := 5) (by decide) hsub
-  refine ⟨_, 5, _, s', by decide, hsub, by simp [ticks, expL, Node.exp], r, ?_, ?_⟩
+    (base := 3) (mj := 0) (Mode.plain_sound _ _ _) (good_init none none) 0 (by decide) (t := 5) (by decide) hsub
+  refine ⟨_, 5, _, s', by decide, hsub, by simp [ticks, expL, Node.exp, Node.after], r, ?_, ?_⟩
   · rcases g.mode with ⟨_, hpc, _⟩ | ⟨hn, _⟩
     · exact hpc
     · simp [afterPAT, needLenB, noteish, mds_PAT, mds_SLR] at hn
@@ -283,11 +420,145 @@ example : ∃ (seq : List Nat) (t : Nat) (T : List Tk) (s' : St),
     · simpa using ho
     · simp [afterPAT, needLenB, noteish, mds_PAT, mds_SLR] at hn
 
+/-- the hypotheses of `C02_drum_call_return_partial` / `C02_drum_routine_at_offset_partial` are
+satisfiable: a chunk fragment with the caller `ec 08 82 0b` at 0 (drum mode on, note byte for routine
+0, 12 ticks), the pointer table at 4 (slot 0 → offset 2) and the routine `e2 87 f7 28` at 6 (`VOL 87`,
+`DMFINISH 40`): the routine plays `VOL 87` and ends with note 40 -/
+example : ∃ (seq : List Nat) (C : List Tk), DrumPlays seq 4 0 6 C 40 ∧ C = [Tk.cmd mds_VOL 0x87] ∧
+    slotTarget seq 4 (0x82 - mds_NOTE) = some 6 := by
+  obtain ⟨e', he', h⟩ := C02_drum_routine_at_offset_partial 0 0 [.ev ⟨mds_VOL, 0x87⟩] (by decide) (by decide) 40
+  have hc : encL 0 0 [.ev ⟨mds_VOL, 0x87⟩] {} = .ok { out := [mds_VOL, 0x87], lastType := mds_VOL } := rfl
+  rw [hc] at he'; injection he' with he'; subst he'
+  have hd := h [0xec, 0x08, 0x82, 0x0b, 0x00, 0x02] [0xec, 0x08, 0x82, 0x0b, 0x00, 0x02, 0xe2, 0x87, 0xf7, 0x28] 4 0
+    (by simp [callsOkL, Node.callsOk]) (List.prefix_refl _)
+  exact ⟨_, _, hd, by decide, by decide⟩
+
 /-- a looping track with a loop (with break) after the loop point: `c c L [ c / r ]2` -/
 def exTrackA : List Node := [.ev ⟨0xa6, 24⟩, .ev ⟨0xa6, 24⟩]
 def exTrackB : List Node := [.loopB [.ev ⟨0xa6, 24⟩] [.ev ⟨mds_REST, 24⟩] 2]
-example : linL exTrackA = true ∧ linL exTrackB = true := by decide
+example : linL exTrackA = true ∧ linL exTrackB = true ∧ brkOkL false exTrackB = true ∧ noCallL exTrackB = true ∧
+    mokL Mode.plain false exTrackA = true ∧ mokL Mode.plain false exTrackB = true := by decide
 example : (convertTrack 0 0 (flatL exTrackA ++ [⟨mds_SEGNO, 0⟩] ++ flatL exTrackB ++ [⟨mds_JUMP, 0⟩])).toOption =
     some [0xa6, 0x17, 0xa6, 0x17, 0xfa, 0xa6, 0x17, 0xfc, 0x03, 0x17, 0xfb, 2, 0xf5, 0xff, 0xf5] := by decide +kernel
+
+/-! ## Whole songs of the fragment (third layer)
+
+`SongTop.PlainSong` = the fragment: track ids ascending, no explicit `END` event, every event of
+every track in `WFold.SimpleEv` (no pitch envelope on; notes — in drum mode: routine numbers —
+inside the MDSDRV range) with the front end's
+timing (`SongSem.Timed`: 16-bit on/off times, only notes/ties have an on time, only notes/ties/rests
+an off time, a sounding note has at least one key-on tick) and loop counts 0..255, called tracks
+without loop point and without drum-mode switch (`SongTop.CalleeNoSeg`), drum-mode switches outside
+counted loops (`drumTop`).  Drum mode: `SongTop.RoutinesOK song b` = every routine number the
+converter registered (a note met in drum mode; keys `track * 4 + 2` of its subroutine map) names a
+routine track of the fragment (`SongTop.RoutineTrack`: before its first note, which stands outside
+any loop, only commands without time and loops of them) whose expansion — the routine as
+`Timeline.ticksOf` calls it — is defined; `SongTop.LoopDrumOK root` = the loop section of a channel
+track ends in the drum-mode state it starts in.  Outside these two conditions the writer's drum-mode
+state (text order) and the driver's (execution order) differ: known finding D27.
+The converter is `MdsFile.construct` (the constructor model of C09, with the index checks;
+`Mds.convertSong` of the first layer stops at macro tracks and has no index check — for songs of
+the fragment both assemble the same chunk, which is not proved here but compared on every run by
+the correspondence check).  Extra hypotheses besides the fragment: the chunk is shorter than 64 KiB
+(`Seq.step` computes the loop-back target modulo 2^16), at most one loop point per channel track
+(`SongSplit.segCount`), `PlatformClean` (no platform `cmd` injects an index-bearing opcode), and
+`SongTop.PlatAgree d.platform pf`: every platform command the converter knows consists of events
+the theorems cover (`Fragment.platEvB`: `CARRY`, or a one- / two-argument command without index
+operand, `FLG` only with bit 7 set — i.e. `mode`, `lfo`, `lforate`, `fm3`, `write`, `pcmrate`,
+`pcmmode`, `carry`, and `cmd` with such an opcode) and the timeline reads it as what those events
+denote (`Fragment.platSpec`).  Macro tracks (`PAN_ENVELOPE` on) are inside: the `MTAB` operand is
+the macro index + 1 + number of subroutines, non-zero because it fits its byte (C09). -/
+
+/-- **C02 for whole songs of the fragment.**  For every channel track in `Timeline.inDomain`
+whose expected tick string is defined: the track table of the assembled chunk lists the channel,
+and the sequence interpreter, started on the listed position with the loop-back followed once,
+plays a tick string `T` that is, after the masking of index operands (`Timeline.maskTk`), exactly
+`Timeline.expected` — for every tick limit that is not smaller than `T` and every sufficiently
+large fuel.  (Channel tracks, counted loops with any number of breaks, subroutine calls to any
+depth through the pointer table — in either drum-mode state —, drum mode switched on and off at the
+top level of channel tracks, notes in drum mode through their routines, the loop point and what is
+replayed after the loop-back jump.) -/
+theorem C02_song_roundtrip_partial (song : Song) (d : DataInfo) (vol : Option String) (pf : Timeline.Platform)
+    (b : MdsFile.Built) (hpc : PlatformClean d) (hp : SongTop.PlainSong song)
+    (hb : MdsFile.construct song d vol = .ok b) (hlen : b.seq.length < 65536) (hR : SongTop.RoutinesOK song b)
+    (hpa : SongTop.PlatAgree d.platform pf) :
+    ∀ id root t, (id, root) ∈ song.tracks → id < 16 → Timeline.inDomain song root = true →
+      SongSplit.segCount root ≤ 1 → SongTop.LoopDrumOK root → Timeline.expected song pf root = .ok t →
+      ∃ base ts start, tracksOf b.seq = some (base, ts) ∧ ts.lookup id = some start ∧
+        ∃ T, T.map Timeline.maskTk = t ∧
+          ∀ maxTicks, T.length ≤ maxTicks → ∃ n, ∀ fuel, fuel > n →
+            run b.seq base 1 maxTicks fuel { pc := start } = (T, .finished) := by
+  intro id root t hmem hid hdom hcnt hloop hexp
+  obtain ⟨ts, stream, pre, htr, hlk, _, hres⟩ :=
+    SongTop.song_plays hpc hp hb hlen pf hmem hid (SongTop.platOK_of_agree hpa _ _) hR (SongTop.inDomain_segno hdom) hcnt hloop hexp 1
+  obtain ⟨X, Y, TA, TB, loops, s', hreach, hfin, hout, hX, hY, ht, _, _, _⟩ := hres.plays
+  refine ⟨_, ts, pre.length, htr, hlk,
+    (if loops then TA ++ repeatL 1 (TB ++ [Tk.loopMark]) ++ TB else TA ++ TB), ?_, ?_⟩
+  · rw [ht, ← hX, ← hY]
+    cases loops <;> simp [SongSem.mk, repeatL, Timeline.maskTk]
+  · intro maxTicks hmax
+    obtain ⟨n, hn⟩ := run_of_reach (maxTicks := maxTicks) hreach hfin (by rw [hout]; simpa using hmax)
+    exact ⟨n, fun fuel hf => by rw [hn fuel hf, hout]; simp⟩
+
+/-! non-vacuity of the hypotheses of `C02_song_roundtrip_partial` / `C03_song_wellformed_partial`: a
+song with a loop point, a counted loop with two breaks and a call inside it, and a subroutine
+(`A c L [d / *100 / e]2`, `*100 f r`); and a drum song (`A c L D1 [*80-note / *100 / *81-note]2 D0`
+with the routines `*80 v7 n40`, `*81 p1 [v+1]2 n41` and the subroutine `*100`, called in drum mode).
+The hypotheses on the song are decided in the kernel through the executable predicates of
+`Fragment` (sound: `SongTop.plainSong_of_B`, `routine_of_B`, `loopDrum_of_B`).  The remaining
+hypotheses, `MdsFile.construct … = .ok b` with a chunk below 64 KiB and `RoutinesOK song b` (which
+routine keys the converter registered), are not evaluated in the kernel (the mutually recursive
+writer does not unfold there): on every correspondence run the judge evaluates `construct` and
+`Fragment.inFragment` on each generated song, compares the chunk with the real bytes, and reports
+the songs that are instances as `ok proved-fragment`. -/
+def exNote (p : Int) (on off : Nat) : Event := { type := ev_NOTE, param := p, on := on, off := off }
+def exCmd (ty : Nat) (p : Int) : Event := { type := ty, param := p, on := 0, off := 0 }
+def exRoot : List Event :=
+  [exNote 36 24 0, exCmd ev_SEGNO 0, exCmd ev_LOOP_START 0, exNote 38 12 12, exCmd ev_LOOP_BREAK 0, exCmd ev_JUMP 100,
+   exCmd ev_LOOP_BREAK 0, exNote 40 24 0, exCmd ev_LOOP_END 2]
+def exSong : Song := { tracks := [(0, exRoot), (100, [exNote 41 6 6, { type := ev_REST, param := 0, on := 0, off := 3 }])] }
+
+example : SongTop.PlainSong exSong := SongTop.plainSong_of_B (by decide)
+example : Timeline.inDomain exSong exRoot = true ∧ SongSplit.segCount exRoot ≤ 1 ∧ (0, exRoot) ∈ exSong.tracks := by decide
+example : SongTop.LoopDrumOK exRoot := SongTop.loopDrum_of_B (by decide)
+example : (Timeline.expected exSong [] exRoot).toOption.map (·.length) = some 199 := by
+  decide +kernel
+example : PlatformClean {} := by intro k evs h; simp at h
+
+def exDrumRoot : List Event :=
+  [exNote 36 24 0, exCmd ev_SEGNO 0, exCmd ev_DRUM_MODE 1, exCmd ev_LOOP_START 0, exNote 80 12 12, exCmd ev_LOOP_BREAK 0,
+   exCmd ev_JUMP 100, exCmd ev_LOOP_BREAK 0, exNote 81 24 0, exCmd ev_LOOP_END 2, exCmd ev_DRUM_MODE 0]
+def exDrumSong : Song :=
+  { tracks := [(0, exDrumRoot), (80, [exCmd ev_VOL 7, exNote 40 1 0]),
+      (81, [exCmd ev_PAN 1, exCmd ev_LOOP_START 0, exCmd ev_VOL_REL 1, exCmd ev_LOOP_END 2, exNote 41 1 0, exNote 42 1 0]),
+      (100, [exNote 80 6 6, { type := ev_REST, param := 0, on := 0, off := 3 }])] }
+
+example : SongTop.PlainSong exDrumSong := SongTop.plainSong_of_B (by decide)
+example : Timeline.inDomain exDrumSong exDrumRoot = true ∧ SongSplit.segCount exDrumRoot ≤ 1 := by decide
+example : SongTop.LoopDrumOK exDrumRoot := SongTop.loopDrum_of_B (by decide)
+/-- the two routine tracks are routines of the fragment, with defined expansions -/
+example : Fragment.routineB exDrumSong 80 = true ∧ Fragment.routineB exDrumSong 81 = true := by decide +kernel
+/-- `c`, then the drum section twice (the loop-back is followed once), with the routines' commands and the loop mark -/
+example : (Timeline.expected exDrumSong [] exDrumRoot).toOption.map (·.length) = some 215 := by
+  decide +kernel
+
+/-- platform commands and a macro track: `A %1 c M1 %2 d` with `%1 = lfo 3 5`, `%2 = carry`, `*300` the
+macro track; the converter's table (what `parse_platform_event` makes of the two commands) agrees
+with the timeline's -/
+def exPlatSong : Song :=
+  { tracks := [(0, [exCmd ev_PLATFORM 1, exNote 36 24 0, exCmd ev_PAN_ENVELOPE 300, exCmd ev_PLATFORM 2, exNote 38 12 12]),
+      (300, [exCmd ev_PAN 1])] }
+def exPlatD : List (Int × Option (List MEv)) := [(1, some [⟨mds_LFO, 0x35⟩]), (2, some [⟨mds_CARRY, 0⟩])]
+def exPlatPf : Timeline.Platform := [(1, [(mds_LFO, 0x35)]), (2, [])]
+example : SongTop.PlainSong exPlatSong := SongTop.plainSong_of_B (by decide)
+example : SongTop.PlatAgree exPlatD exPlatPf := SongTop.platAgree_of_B (by decide)
+example : PlatformClean { platform := exPlatD } := by
+  intro k evs h
+  simp only [exPlatD, List.lookup] at h
+  split at h
+  · simp only [Option.some.injEq] at h; subst h; intro ev hev; simp at hev; subst hev; unfold Plain; decide
+  · split at h
+    · simp only [Option.some.injEq] at h; subst h; intro ev hev; simp at hev; subst hev; unfold Plain; decide
+    · cases h
 
 end Ctrmml.C02
